@@ -207,7 +207,8 @@ class QR {
             this->row_stride = row_stride;
             this->col_stride = col_stride;
 
-            q.resize(m * n);
+            // q is indexed with the strides of A, which may be padded
+            q.resize(std::max(m * n, (m - 1) * row_stride + (n - 1) * col_stride + 1));
 
             // Initialise columns k+1:n to zero.
             // [In the original code these were initialized to the columns of
